@@ -404,6 +404,9 @@ Qed.
 Lemma sat_set_alg : forall g t th a s1 s2 r1 r2 np, sat g t th a -> sat g t th (set_alg_facts s1 s2 r1 r2 np a).
 Proof. intros g t th a s1 s2 r1 r2 np []. constructor; simpl; auto. Qed.
 
+Lemma sat_clear_reward : forall g t th a, sat g t th a -> sat g t th (set_misc (f_regmiss a) (f_mine a) false a).
+Proof. intros g t th a []. constructor; simpl; auto; discriminate. Qed.
+
 Lemma stmt_boring_alg : forall g ts t th a g' th' s1 s2 r1 r2 np,
   GI g ts -> nth_error ts t = Some th -> sat g t th a -> same_study g g' -> same_gi g g' -> same_regs th th' ->
   stmt_goal g ts t g' th' (set_alg_facts s1 s2 r1 r2 np a).
@@ -833,10 +836,12 @@ Qed.
 
 Lemma stmt_final_common : forall o i x, o <> None -> r_cur th = Some i -> g_own (gh th) = Some i -> nth_error (T g) i = Some x ->
   t_done x = true -> t_owner x = Some t ->
-  stmt_goal g ts t (upd_study 0 (upd_trial i (apply_tmut (TFinal o))) g) th (set_cur_facts (f_hasmeas a) (f_own a) (f_inf a) true a).
+  stmt_goal g ts t (upd_study 0 (upd_trial i (apply_tmut (TFinal o))) g) th
+    (set_misc (f_regmiss a) (f_mine a) false (set_cur_facts (f_hasmeas a) (f_own a) (f_inf a) true a)).
 Proof.
   intros o i x Ho Hcur Hown Hx Hd Hw. split; [|split].
-  - eapply sat_add_final with (i := i) (y := apply_tmut (TFinal o) x); eauto.
+  - apply (sat_clear_reward _ _ _ (set_cur_facts (f_hasmeas a) (f_own a) (f_inf a) true a)).
+    eapply sat_add_final with (i := i) (y := apply_tmut (TFinal o) x); eauto.
     + apply sat_trial_final; auto.
     + rewrite T_upd_trial. erewrite nth_upd_transfer; eauto. rewrite Nat.eqb_refl. eauto.
   - intros th'' Hsr. apply GI_trial_pres; auto.
@@ -929,7 +934,8 @@ Proof.
   rewrite A in Hsem. unfold otrial in Hsem. fold (T g) in Hsem. rewrite C in Hsem.
   injection Hsem as Eg Eth; subst g' th'. simpl.
   set (g1 := upd_study 0 (upd_trial i (apply_tmut TFed)) g).
-  set (al := al_base (a_spec (alg g)) (a_np (alg g)) (S (a_nf (alg g))) (a_fed (alg g) ++ [(0, t_id x)]) (alg g)).
+  set (al := al_fedv (a_fedv (alg g) ++ [(0, t_id x, match r_reward th with Some z => z | None => 0%Z end)])
+              (al_base (a_spec (alg g)) (a_np (alg g)) (S (a_nf (alg g))) (a_fed (alg g) ++ [(0, t_id x)]) (alg g))).
   assert (Hss : same_study g1 (set_alg g1 al)) by (constructor; reflexivity).
   assert (Hsg : same_gi g1 (set_alg g1 al)) by (constructor; reflexivity).
   split; [|split].
